@@ -173,6 +173,19 @@ def gen_layout(rng):
     return h
 
 
+def gen_layout_c03(rng):
+    """layouts for C03/C20: everything of gen_layout plus tabs, CRLF, odd spacing"""
+    h = gen_layout(rng)
+    r = rng.random()
+    if r < 0.12:
+        h["tabs"] = True
+    elif r < 0.24:
+        h["eol"] = "crlf"
+    if rng.random() < 0.3:
+        h.setdefault("pre", []).append(rng.choice(["def  odd( a,b ):\n    return [a ,b]", "T = ( 1,\n      2 )  # é", "class  K : pass"]))
+    return h
+
+
 def gen_program(rng, prof, o=None):
     """-> program (see program.py) with site["obs"] kept for the model / oracles"""
     o = dict(DEFAULT, **(o or {}))
@@ -258,6 +271,7 @@ def _clone(x):
 def _prune_sites(f):
     used = {e["site"] for t in f["tests"] for e in t["events"] if e.get("t") == "cmp"}
     used |= {e["site"] for e in f.get("module_events", []) if e.get("t") == "cmp"}
+    used |= {sid for t in f["tests"] for e in t["events"] if e.get("t") == "cmp2" for sid in e["sites"]}
     f["sites"] = {sid: s for sid, s in f["sites"].items() if sid in used}
 
 
